@@ -1003,6 +1003,7 @@ class Engine(object):
             if cid is None or cid not in st.private:
                 self.escape(st, t)
             st.put(name, oid, t)
+            st.trace.append(Event("write", recv=oid, meth=name, args=[t], site=self.site(fr, node), held=list(st.held), depth=fr.depth))
             hook = self.cfg.ghost_hooks.get(("write", name))
             if hook:
                 hook(self, st, fr, o, v)
